@@ -23,6 +23,7 @@ assume fewer than 2^31 records / bytes, as a real request has.
 -/
 import KafkaVerif.Base.RecWire
 import KafkaVerif.Spec.RecordBatch
+import KafkaVerif.Gen.SizeFns
 
 namespace KV.Model.RecordWriter
 open KV KV.RW
@@ -49,19 +50,46 @@ def sizeOfUnsignedVarInt (u : Nat) : Nat := (bitLen (if u = 0 then 1 else u) + 6
 /-- `sizeOfVarInt`; `uint64((i << 1) ^ (i >> 63))` is the zig-zag map on int64 -/
 def sizeOfVarInt (i : Int) : Nat := sizeOfUnsignedVarInt (zigzag i)
 
-def sizeOfVarNullBytes : Option Bytes → Nat
-  | none => sizeOfVarInt (-1)
-  | some b => sizeOfVarInt (b.length : Int) + b.length
+/-- the sizing function a helper of protocol/size.go applies to a length, BY ITS NAME AS FOUND IN THE SOURCE NOW
+(Gen/SizeFns, regenerated on every run): the zig-zag `sizeOfVarInt`, or `sizeOfUnsignedVarInt` -/
+def prefixSize (fn : String) (n : Int) : Nat :=
+  if fn = "sizeOfVarInt" then sizeOfVarInt n else sizeOfUnsignedVarInt n.toNat
 
-def sizeOfVarString (s : Bytes) : Nat := sizeOfVarInt (s.length : Int) + s.length
+/-- likewise the integer writer an encoder of protocol/encode.go uses for a length: `writeVarInt` (zig-zag) or
+`writeUnsignedVarInt` -/
+def prefixBytes (fn : String) (n : Int) : Bytes :=
+  if fn = "writeVarInt" then varint n else uvarint n.toNat
+
+def nth (l : List String) (i : Nat) : String := (l[i]?).getD ""
+
+/-- `sizeOfVarNullBytes` (header values): `if b == nil { return <calls[0]>(-1) }; return <calls[1]>(len) + len` -/
+def sizeOfVarNullBytes : Option Bytes → Nat
+  | none => prefixSize (nth Gen.SizeFns.varNullBytesCalls 0) (-1)
+  | some b => prefixSize (nth Gen.SizeFns.varNullBytesCalls 1) (b.length : Int) + b.length
+
+/-- `sizeOfVarNullBytesIface` (keys and values) -/
+def sizeOfVarNullBytesIface : Option Bytes → Nat
+  | none => prefixSize (nth Gen.SizeFns.varNullBytesIfaceCalls 0) (-1)
+  | some b => prefixSize (nth Gen.SizeFns.varNullBytesIfaceCalls 1) (b.length : Int) + b.length
+
+/-- `sizeOfVarString` (header keys) -/
+def sizeOfVarString (s : Bytes) : Nat := prefixSize (nth Gen.SizeFns.varStringCalls 0) (s.length : Int) + s.length
 
 /-! ### protocol/encode.go pieces used by the record writers -/
 
+/-- `writeVarNullBytes` (header values) -/
 def writeVarNullBytes : Option Bytes → Bytes
-  | none => varint (-1)
-  | some b => varint (b.length : Int) ++ b
+  | none => prefixBytes (nth Gen.SizeFns.writeVarNullBytesCalls 0) (-1)
+  | some b => prefixBytes (nth Gen.SizeFns.writeVarNullBytesCalls 1) (b.length : Int) ++ b
 
-def writeHeader (h : Hdr) : Bytes := varint (h.key.length : Int) ++ (h.key ++ writeVarNullBytes h.value)
+/-- `writeVarNullBytesFrom` (keys and values) -/
+def writeVarNullBytesFrom : Option Bytes → Bytes
+  | none => prefixBytes (nth Gen.SizeFns.writeVarNullBytesFromCalls 0) (-1)
+  | some b => prefixBytes (nth Gen.SizeFns.writeVarNullBytesFromCalls 1) (b.length : Int) ++ b
+
+/-- `writeVarString(h.Key)` then `writeVarNullBytes(h.Value)` -/
+def writeHeader (h : Hdr) : Bytes :=
+  prefixBytes (nth Gen.SizeFns.writeVarStringCalls 0) (h.key.length : Int) ++ (h.key ++ writeVarNullBytes h.value)
 
 def writeHeaders : List Hdr → Bytes
   | [] => []
@@ -77,10 +105,10 @@ def headersSize : List Hdr → Nat
 def recordV2 (first : Int) (i : Nat) (t : Int) (r : PRec) : Bytes :=
   let timestampDelta := t - first
   let offsetDelta : Int := i
-  let length := 1 + sizeOfVarInt timestampDelta + sizeOfVarInt offsetDelta + sizeOfVarNullBytes r.key +
-    sizeOfVarNullBytes r.value + sizeOfVarInt (r.headers.length : Int) + headersSize r.headers
-  varint (length : Int) ++ (0 :: (varint timestampDelta ++ (varint offsetDelta ++ (writeVarNullBytes r.key ++
-    (writeVarNullBytes r.value ++ (varint (r.headers.length : Int) ++ writeHeaders r.headers))))))
+  let length := 1 + sizeOfVarInt timestampDelta + sizeOfVarInt offsetDelta + sizeOfVarNullBytesIface r.key +
+    sizeOfVarNullBytesIface r.value + sizeOfVarInt (r.headers.length : Int) + headersSize r.headers
+  varint (length : Int) ++ (0 :: (varint timestampDelta ++ (varint offsetDelta ++ (writeVarNullBytesFrom r.key ++
+    (writeVarNullBytesFrom r.value ++ (varint (r.headers.length : Int) ++ writeHeaders r.headers))))))
 
 /-- `t := timestamp(r.Time); if t == 0 { t = currentTimestamp }` -/
 def effTime (now : Int) (r : PRec) : Int := if r.time = 0 then now else r.time
